@@ -168,6 +168,15 @@ def cases(ctx):
                             yield {"version": version, "sends": sends, "wakes": wakes, "faults": list(faults),
                                    "reenter_after": reenter_after}
     ctx.exhaustive["fault-subsets-enumerated"] = count
+    # long histories: the same command fails at MANY consecutive wakes before a working one (retry counters, caps)
+    for version in ("2.0", "2.2"):
+        for sends in ([[A, 0, 2]], [[A, 0, 2], [A, 1, 3]], [[A, 0, 2], [B, 0, 2]]):
+            for failures in (1, 2, 3, 4, 5, 6, 8, 12, 20, ctx.pick(40, 150)):
+                if ctx.mine():
+                    yield {"version": version, "sends": sends, "wakes": [A] * (failures + 1) + [B],
+                           "faults": list(range(failures))}
+                    yield {"version": version, "sends": sends, "wakes": [A, B] * failures + [A],
+                           "faults": list(range(0, 2 * failures, 2))}
     if not ctx.quick:
         resend_opts = [None, [A, 0, 2], [A, 1, 3], [B, 0, 2]]
         for version in ("2.0", "2.2"):
